@@ -133,6 +133,8 @@ def run(tier, seed):
             results = run_sched(s, inp, name)
             runs.append({"config": "gen-" + name, "edges": g.nedges, "scripts": len(scripts)})
             for r_ in results:
+                if len(verdict.violations) >= 5:
+                    break       # enough confirmed rejections (each further one costs three long re-runs)
                 sc = scripts[r_["script"]]
                 nscripts += 1
                 r_["obs"] = r_.get("obs") or []
@@ -226,7 +228,7 @@ def run(tier, seed):
             if len(samples) < 3 and d.get("samples"):
                 samples.append({"fidpool_history": d["samples"][0]})
             for fd in d.get("findings") or []:
-                garbled_before = any(st["out"] == "garbled" for st in fd["hist"][:max(fd["step"], 0)])
+                garbled_before = any(st["out"] == "garbled" for st in (fd.get("hist") or [])[:max(fd["step"], 0)])
                 if fd.get("reuse") and garbled_before and "R15" in opens:
                     # predicted by the specification with the deviation: the client carries on after a frame it
                     # cannot accept and has put back the fid of the call that frame failed
@@ -234,9 +236,9 @@ def run(tier, seed):
                     accepted += 1
                     continue
                 if len(verdict.violations) < 5:
-                    p = vlib.save_replay(prop, {"kind": "fidpool", "history": fd["hist"], "step": fd["step"], "finding": fd["detail"]}, "fidpool")
-                    verdict.violation(p, "fid allocation, history %s, step %d: %s" %
-                                      ([(x["op"], x["fid"], x["out"]) for x in fd["hist"]], fd["step"], fd["detail"]))
+                    p = vlib.save_replay(prop, {"kind": "fidpool", "history": fd.get("hist") or [], "step": fd["step"], "finding": fd["detail"]}, "fidpool")
+                    verdict.violation(p, "fid / tag allocation, history %s, step %d: %s" %
+                                      ([(x["op"], x["fid"], x["out"]) for x in (fd.get("hist") or [])], fd["step"], fd["detail"]))
         runs.append({"config": "gen-fidpool", "histories": fcases, "fid_numbers_differing_from_the_LIFO_pool": fdiffs})
     for k in known:
         verdict.known_finding("%s %s" % (k, opens[k].get("what", "")))
